@@ -4,8 +4,8 @@ from vlib import *
 META = {
     "technique": "Lean 4 theorems over a model of preprocessor_t (conditional-directive status machine, #if evaluation in intmax_t/uintmax_t, macro expansion with disable-until-end markers) against reference semantics (C nested-group rule, C evaluation, hide-set expansion); three-way differential run: model = real preprocessor_t (correspondence), preprocessor_t = system `cpp -P -undef` (oracle), reference model = cpp (validation of the specification side)",
     "category": "proof",
-    "level_text": "Proof for every well-nested directive list that the status machine keeps exactly the lines of the C nested-group rule without evaluating a condition C does not evaluate, ends with an empty stack, and never pops an empty stack on ANY directive sequence (C13_lines, C13_stack_balanced, C13_never_pops_base); proof that the evaluator never touches the skipped operand of && || ?: and never traps where C does not (C13_no_trap_guarded); termination and agreement with the hide-set reference of the macro-expansion model on the stated sub-class (partial; the full statements and their status are kept visible). Tied to the code by the regenerated status flags / operator table and by a seeded three-way differential run of the real preprocessor_t, the Lean model and the system cpp on generated translation units.",
-    "level_note": "Trusted: Lean kernel; translate/gen_pp.py (regex extraction of the ppStatus flags, the operator precedence table and the shape of processElif / binaryOpNode::evaluate); the hand-written model of preprocessor_t/macro_t/expression evaluation in OccaModel/Cpp.lean (validated by the correspondence run, not proved equal to the C++); gcc's cpp as the reference preprocessor; tokenisation is outside C13 (units are generated as token lists). Macro-expansion agreement with the C algorithm is proved only for the stated sub-class; mutually recursive function-like macros are a recorded finding.",
+    "level_text": "Proof, for every well-nested directive list of any depth, that the status machine keeps exactly the lines of the C nested-group rule, evaluates exactly the conditions C evaluates (so an #elif after a taken group or inside a skipped group may be malformed or trap), and ends in its initial state (C13_lines, C13_stack_balanced); for ANY directive sequence it never pops an empty stack or the init() entry (C13_never_pops_base). Proof that the repaired evaluator computes the C value of every #if expression of the class S64 and takes the same branch (C13_eval_agrees_with_C) and never touches the skipped operand of && || ?: (C13_no_trap_guarded). Macro expansion: fuel monotonicity; for all tables of object-like macros (cycles included) termination and token-for-token agreement with the C standard's hide-set algorithm (C13_expand_terminates_partial, C13_expand_agrees_partial); the full statements are refuted with function-like witnesses (non-termination of f(x)->g(x), g(x)->f(x); missing blue paint), which are recorded findings. Tied to the code by regenerated flags/shape facts/operator table and a seeded three-way differential run (real preprocessor_t = Lean model; preprocessor_t = system cpp; Lean reference semantics = cpp) on generated translation units.",
+    "level_note": "Trusted: Lean kernel; translate/gen_pp.py (regex extraction of the ppStatus flags, the operator precedence table and the shape of processElif / lineIsTrue / binaryOpNode::evaluate / macroArgument::expand / operatorIsLeftUnary / applyFasterOperators); the hand-written models of preprocessor_t, macro_t, primitive operators and the expression parser in OccaModel/Cpp*.lean (validated by the correspondence run, not proved equal to the C++); gcc's cpp as the reference preprocessor; tokenisation is outside C13 (units are generated as token lists). With function-like macros neither termination nor agreement is proved (and neither holds in general: findings F62, F63, F65, F67, F68); on the generated classes (acyclic tables with nested calls; self-reference without macro names in arguments) agreement is checked by the differential run only. Expressions outside S64 (bool-typed operands of arithmetic, shifts) are checked only.",
     "design_ref": "DESIGN.md section 4, C13",
 }
 
